@@ -409,6 +409,7 @@ def run_live_reuse(shard, acc):
     viols = []
     env = {k: v for k, v in os.environ.items() if k != "LD_PRELOAD"}
     argv = [sys.executable, "-S", "-c", "import time\nwhile True: time.sleep(1000)"]
+    ps.process_iter.cache_clear()        # no entry left over from an earlier owner of a recycled pid
     if variant == "popen_waited":
         child = ps.Popen(argv, env=env)
         obj = child
